@@ -5,7 +5,11 @@ recipe: {"types":[[name,father]], "objects":[[name,type]],
                                          object is added to several agents, Dot(agent, f) selects the owner),
          "env_fluents":[fluent dict],
          "agents":[{"name", "fluents":[[pool_name, public?]], "actions":[action_name]}],
-         "actions":{name: {"params":[[n,type]], "pre":[expr], "effects":[eff]}}   (an action may be shared by several agents)
+         "actions":{key: {"params":[[n,type]], "pre":[expr], "effects":[eff], "label": name (optional)}}
+                                         an action (one object) may be shared by several agents; the action's name is its
+                                         "label" when given, else its key - action names are only unique *per agent*, so
+                                         different keys may carry the same label (same-named actions of different agents
+                                         with different or with equal bodies),
          "init":[[fluent_expr(with "dot" for agent fluents), value]], "goals":[expr]}
 expressions / effects use the vk.recipe formats.
 """
@@ -27,6 +31,7 @@ class G:
             max_agents=3,
             dot=0.5,
             shared_actions=0.3,
+            same_names=0.35,  # probability that actions of different agents get the same name (different bodies / equal copies)
         )
         if profile:
             self.pf.update(profile)
@@ -179,6 +184,8 @@ class G:
         for f in self.env_fluents:
             if r.random() < 0.4:
                 init.append([["f", f["name"]], self.const_for(f["type"])])
+        if r.random() < pf["same_names"]:
+            self.same_names()
         return {
             "name": "ma",
             "types": self.types,
@@ -190,6 +197,44 @@ class G:
             "init": init,
             "goals": goals,
         }
+
+    def same_names(self):
+        """Action names are unique per agent only: the own (unshared) action of one agent lends its name to one own action of
+        each of some other agents - either keeping that action's different body, or (when the other agent owns every agent
+        fluent the body mentions) replacing it by an equal copy of the lender's body (a second action object, not a shared one).
+        The lender is any agent, so the same-named actions appear in both agent orders."""
+        import copy
+
+        r = self.rng
+        owners = {}
+        for ag in self.agents:
+            for k in ag["actions"]:
+                owners.setdefault(k, []).append(ag)
+        own = lambda ag: [k for k in ag["actions"] if len(owners[k]) == 1]
+        lenders = [ag for ag in self.agents if own(ag)]
+        if not lenders:
+            return
+        src = r.choice(lenders)
+        k1 = r.choice(own(src))
+        label = self.actions[k1].get("label", k1)
+        first = True
+        others = [ag for ag in self.agents if ag is not src]
+        r.shuffle(others)
+        for ag in others:
+            if not own(ag) or any(self.actions[k].get("label", k) == label for k in ag["actions"]):
+                continue
+            if not first and r.random() < 0.4:
+                continue
+            first = False
+            k2 = r.choice(own(ag))
+            if r.random() < 0.35 and self.pool_names_in(self.actions[k1]) <= {fn for fn, _ in ag["fluents"]}:
+                self.actions[k2] = copy.deepcopy(self.actions[k1])
+                self.feat.add("same-name:equal-copy")
+            else:
+                self.feat.add("same-name:different-body")
+                order = [a["name"] for a in self.agents]
+                self.feat.add("same-name:different-body:lender-" + ("first" if order.index(src["name"]) < order.index(ag["name"]) else "second"))
+            self.actions[k2]["label"] = label
 
     def pool_names_in(self, act):
         out = set()
@@ -294,7 +339,7 @@ def instantiate(rec, env):
     actions = {}
     for an, a in rec["actions"].items():
         params = OrderedDict((n, ctx.type(t)) for n, t in a.get("params", []))
-        act = InstantaneousAction(an, params, env)
+        act = InstantaneousAction(a.get("label", an), params, env)
         ctx.params = {p.name: p for p in act.parameters}
         for c in a.get("pre", []):
             act.add_precondition(ctx.expr(c))
